@@ -1676,6 +1676,19 @@ private:
     {
       s->tlsMode = TlsMode::Client;
       s->ssl = ::SSL_new(_sslCli);
+      // Connection made to a host name (not an IP literal): send it as SNI and,
+      // when the peer is verified, require the certificate to be issued for that
+      // name (RFC 6125). Without this any certificate that chains to the trust
+      // anchors is accepted for every host.
+      if (s->ssl && !isIPv4 && !isIPv6)
+      {
+        ::SSL_set_tlsext_host_name(s->ssl, cr.host.c_str());
+        if (_config.clientTls.verifyPeer && ::SSL_set1_host(s->ssl, cr.host.c_str()) != 1)
+        {
+          ::SSL_free(s->ssl);
+          s->ssl = nullptr; // handled as an SSL set-up failure below
+        }
+      }
       if (!s->ssl)
       {
         // Fire onClose for the sid the caller already received from connect()
